@@ -121,8 +121,10 @@ func (s *GRPCServer) Init() error {
 // Stop calls Stop on the underlying grpc.Server and Close on the underlying
 // grpc.Broker if present.
 func (s *GRPCServer) Stop() {
-	s.server.Stop()
+	// Close the broker first: Serve returns (and the plugin process usually
+	// exits) as soon as the server has stopped.
 	s.closeBroker()
+	s.server.Stop()
 }
 
 // GracefulStop calls GracefulStop on the underlying grpc.Server and Close on
@@ -134,11 +136,13 @@ func (s *GRPCServer) GracefulStop() {
 
 func (s *GRPCServer) closeBroker() {
 	s.brokerLock.Lock()
-	defer s.brokerLock.Unlock()
+	broker := s.broker
+	s.broker = nil
+	s.brokerLock.Unlock()
 
-	if s.broker != nil {
-		s.broker.Close()
-		s.broker = nil
+	// Close outside the lock: it closes the brokered listeners.
+	if broker != nil {
+		broker.Close()
 	}
 }
 
